@@ -1,6 +1,6 @@
 (** C16 — case evaluators: exact tie of the byte kernels (through the real
     components) and trace inclusion for whole hierarchies. *)
-From Akita Require Import Lib.Base C16.Model.
+From Akita Require Import Lib.Base C16.Model C16.Ideal.
 Local Open Scope N_scope.
 
 Definition wr := (N * list N * option (list bool))%type.   (* address / offset, data, mask *)
@@ -17,7 +17,13 @@ Inductive case :=
       the block's dirty mask *)
 | KLine (init : list N) (writes : list wr) (final : list N) (dm : option (list bool))
   (** events recorded at the requester port of a real assembly *)
-| Trace (tr : list ev).
+| Trace (tr : list ev)
+  (** L1: the real ideal memory controller driven tick by tick (no engine):
+      per tick the requests delivered to its Top port and the number of
+      responses retrieved afterwards; observed: the responses retrieved in
+      each tick ([None] = panic) and the final storage bytes at [base] *)
+| KIdeal (width : nat) (lat : N) (cap : nat) (base : N) (len : nat) (sched : list slot)
+         (got : option (list (list ev))) (final : list N).
 
 Fixpoint ctl_model (m : store) (ws : list wr) : option store :=
   match ws with
@@ -51,6 +57,25 @@ Definition bool_eqb (a b : bool) : bool := if a then b else negb b.
 Definition masks_ok (ws : list wr) : bool :=
   forallb (fun '(_, d, k) => match k with Some l => Nat.eqb (length l) (length d) | None => true end) ws.
 
+Definition req_eqb (a b : req) : bool :=
+  (r_id a =? r_id b) && bool_eqb (r_write a) (r_write b) && (r_addr a =? r_addr b) && (r_size a =? r_size b) &&
+  listN_eqb (r_data a) (r_data b) && opt_eqb (list_eqb bool_eqb) (r_mask a) (r_mask b) && listN_eqb (r_src a) (r_src b).
+
+Definition ev_eqb (a b : ev) : bool :=
+  match a, b with
+  | Send x, Send y => req_eqb x y
+  | Recv i1 r1 d1 x1, Recv i2 r2 d2 x2 => bool_eqb i1 i2 && (r1 =? r2) && listN_eqb d1 d2 && listN_eqb x1 x2
+  | _, _ => false
+  end.
+
+(** the requester's view of a tick-driven run: per tick, the requests it
+    delivered, then the responses it retrieved *)
+Fixpoint requester_view (sched : list slot) (got : list (list ev)) : list ev :=
+  match sched, got with
+  | sl :: rest, g :: gs => map Send (sl_deliver sl) ++ g ++ requester_view rest gs
+  | _, _ => []
+  end.
+
 (** model output = implementation output *)
 Definition check_case (c : case) : bool :=
   match c with
@@ -66,6 +91,13 @@ Definition check_case (c : case) : bool :=
       | Some l => opt_eqb (list_eqb bool_eqb) (mask_model (map (fun _ => false) init) ws) (Some l)
       end
   | Trace _ => true
+  | KIdeal width lat cap base len sched got final =>
+      match env_run width lat cap (ist0 empty_store) sched, got with
+      | Some (s, gots), Some g =>
+          list_eqb (list_eqb ev_eqb) gots g && listN_eqb (load (i_store s) base len) final
+      | None, None => true
+      | _, _ => false
+      end
   end.
 
 (** the property evaluated on the implementation's observed behaviour *)
@@ -84,4 +116,9 @@ Definition holds_on (c : case) : bool :=
           (load (ctl_flat (save empty_store 0 init) ws) 0 (length init))
       else true
   | Trace tr => accepts tr
+  | KIdeal width lat cap base len sched got final =>
+      match got with
+      | Some g => accepts (requester_view sched g)
+      | None => false
+      end
   end.
